@@ -1,5 +1,6 @@
 #!/bin/bash
-# Renders the build overlay (patched copies of three go1.26.8 std files) into overlay/gen.
+# Renders the build overlay into overlay/gen: patched copies of three go1.26.8 std files (fixed hash seed, sequenced
+# math/rand) and of client-go's workqueue/parallelizer.go (workers report the piece they hold).
 set -euo pipefail
 cd "$(dirname "$0")"
 G=${VERIF_GOROOT:-/opt/veriftools/go1.26.8}
@@ -10,6 +11,19 @@ cp "$G/src/math/rand/v2/rand.go" gen/mrand2.go
 patch -s gen/runtime_rand.go runtime_rand.patch
 patch -s gen/mrand.go mrand.patch
 patch -s gen/mrand2.go mrand2.patch
+export GOFLAGS=-mod=mod GOPROXY=off GOSUMDB=off GOTOOLCHAIN=local
+# client-go: files beneath GOMODCACHE may not be overlaid, so the module is copied next to the overlay (go.mod has
+# "replace k8s.io/client-go => ./overlay/gen/client-go") and one file of the copy is patched
+CG=$(awk '$1=="k8s.io/client-go"{print $2; exit}' ../go.mod)
+CGSRC=$(go1.26.8 env GOMODCACHE)/k8s.io/client-go@$CG
+if [ ! -f gen/client-go/.verif-$CG ]; then
+  rm -rf gen/client-go
+  mkdir -p gen/client-go
+  cp -r "$CGSRC/." gen/client-go/
+  chmod -R u+w gen/client-go
+  patch -s gen/client-go/util/workqueue/parallelizer.go workqueue_parallelizer.patch
+  touch gen/client-go/.verif-$CG
+fi
 cat > overlay.json <<JSON
 {"Replace":{"$G/src/runtime/rand.go":"$PWD/gen/runtime_rand.go","$G/src/math/rand/rand.go":"$PWD/gen/mrand.go","$G/src/math/rand/v2/rand.go":"$PWD/gen/mrand2.go"}}
 JSON
